@@ -549,7 +549,14 @@ static int scn_e(int argc, char** argv) {
   nfib = 0;
   /* ticks start only when every sleeper has started, plus a grace period in which the last ones reach the tree */
   start_driver(1000, 400, 50000, &started, e_n);
-  for (int i = 0; i < e_n; ++i) fs[i] = fiber_create(16384, e_fiber, (void*)(intptr_t)i);
+  for (int i = 0; i < e_n; ++i) {
+    fs[i] = fiber_create(16384, e_fiber, (void*)(intptr_t)i);
+    if (!fs[i]) {   /* the machine's limit (vm.max_map_count: two mappings per fiber stack), not the library's */
+      printf("I create_failed %d\n", i);
+      e_n = 0;
+      report_and_exit(5);
+    }
+  }
   for (int i = 0; i < e_n; ++i) fiber_join(fs[i], NULL);
   atomic_store(&finished, 1);
   report_and_exit(0);
